@@ -1,19 +1,24 @@
-"""C07: C programs compiled by c2mir behave as under the reference C compiler (the fragment spec/CExpr.tla and
-spec/CStmt.tla decide).
+"""C07: C programs compiled by c2mir behave as under the reference C compiler (the fragment spec/CExpr.tla,
+spec/CStmt.tla and spec/CInit.tla decide).
 
 Direction A.  TLC enumerates (BFS) / samples (-simulate)
   expr  typed integer expression trees with the result TYPE and VALUE computed by spec/CExpr.tla (C11 6.3.1 ranks,
         promotions, usual arithmetic conversions, 6.4.4.1 literal types, 6.5 operators, compound assignment, ++/--,
         bit-field operands and lvalues); trees whose evaluation is undefined are dropped by the spec;
   stmt  statement trees with the sequence of ev(k) calls and the return value computed by the continuation-stack
-        semantics of spec/CStmt.tla.
+        semantics of spec/CStmt.tla;
+  init  brace-enclosed initialiser lists for one aggregate (designators, nested lists, strings, bit-fields, partial
+        lists, overriding) with the member values computed by spec/CInit.tla.
 Binding: cases are rendered into batch C files.  Every expression appears (C) where C requires an integer constant
 expression (enum value, static initialiser, _Static_assert, case label, array bound) so that c2mir's compile-time
-evaluation is used, (R) over volatile objects and (L) over plain locals so that run-time code / the MIR optimiser is
-used; the program prints type (_Generic), size and value.  Every file is compiled and run with gcc (reference) and by
-c2m under each engine of the tier.
-Two-oracle rule: VIOLATION iff spec == gcc and c2m (some engine) differs in a printed field, rejects the file or
-crashes; spec != gcc is SPEC-DISAGREES (exit 0, counted).  A failing case is re-run alone before it is reported.
+evaluation is used, (R) over file-scope volatile objects so that run-time code is used and (L) over plain locals
+(registers: the MIR optimiser may fold); the program prints type (_Generic), size and value.  An initialiser is used
+for a static object, an automatic object, a compound literal, and the object is copied by assignment and by
+passing/returning it by value; member values are printed.  Every file is compiled and run with gcc (reference) and
+by c2m under each engine of the tier (`c2m [-O<n>] file.c -ei|-eg|-el|-eb`).
+Two-oracle rule: VIOLATION iff spec == gcc and c2m (some engine) differs in a printed field, rejects the file,
+crashes or does not terminate; spec != gcc is SPEC-DISAGREES (exit 0, counted).  A failing case is re-run (in a batch
+of failing cases, alone if that batch fails as a whole) before it is reported.
 """
 import collections, copy, hashlib, json, os, re, shutil, subprocess, sys, time
 from concurrent.futures import ThreadPoolExecutor
@@ -25,8 +30,8 @@ WORK = os.path.join(vlib.OUT, "c07")
 BATCH = 200
 NPAR = max(2, min(12, vlib.NCPU - 2))
 RUN_TIMEOUT = 40          # expression files
-STMT_TIMEOUT = 12         # statement files (a wrong compiler easily produces endless loops)
-MAX_ISOLATE = 30          # run-time failures isolated per job before the rest of the failing batches is only counted
+STMT_TIMEOUT = 15         # statement files (a wrong compiler easily produces endless loops)
+MAX_ISOLATE = 30          # time-outs isolated per run before the rest of a batch that times out is only counted
 
 ENGINES = {
     # (name, options before the source file, execution option: everything after -e? is passed to the compiled program)
@@ -296,7 +301,7 @@ def parse_out(text):
     return res, done
 
 
-def run_engines(c2m, engines, cases, ids, tag, extra_engines=(), keep=False):
+def run_engines(c2m, engines, cases, ids, tag, extra_engines=(), keep=False, slow=False):
     """Write one file, run gcc and every engine.  Returns (fname, {engine: (status, {id: {ctx: fields}})}),
     status in ok | reject | crash(rc) | timeout | rc(n)."""
     os.makedirs(os.path.join(WORK, "src"), exist_ok=True)
@@ -305,7 +310,7 @@ def run_engines(c2m, engines, cases, ids, tag, extra_engines=(), keep=False):
         f.write(render_file(cases, ids))
     want_rc = len(cases) % 50 + 3
     res = {}
-    tmo = STMT_TIMEOUT if cases[0]["fam"] == "stmt" else RUN_TIMEOUT
+    tmo = (STMT_TIMEOUT if cases[0]["fam"] == "stmt" else RUN_TIMEOUT) * (4 if slow else 1)
     exe = fn[:-2] + ".gcc"
     rc, o, e = vlib.sh(["gcc", "-std=c11", "-O0", "-w", fn, "-o", exe], timeout=RUN_TIMEOUT)
     if rc != 0:
@@ -393,9 +398,29 @@ def judge(c2m, engines, cases, tag, stats, extra_engines=()):
     sa_fail = collections.defaultdict(set)     # case index -> compilers whose _Static_assert failed
     seq = [0]
 
+    retried = set()        # batches (by their first case) already re-run with a long time limit
+
     def one(items):
         seq[0] += 1
-        return run_engines(c2m, engines, [c for _, c in items], [i for i, _ in items], "%s_%05d" % (tag, seq[0]), extra_engines)
+        return run_engines(c2m, engines, [c for _, c in items], [i for i, _ in items], "%s_%05d" % (tag, seq[0]), extra_engines,
+                           slow=(len(items), items[0][0]) in retried)
+
+    def settle(items, res, confirm, suspects):
+        for i, c in items:
+            e = expected(c)
+            bad = bool(sa_fail.get(i))
+            for ctx, ef in e.items():
+                for n in ["gcc"] + eng_names:
+                    if res[n][1].get(i, {}).get(ctx) != ef:
+                        bad = True
+            if not bad:
+                stats.cnt["pass"] += 1
+                if confirm:
+                    stats.cnt["pass_on_rerun"] += 1
+            elif confirm:
+                verdict(i, c, res)
+            else:
+                suspects.append((i, c))
 
     def waves(batches, confirm):
         suspects, nrun = [], 0
@@ -408,6 +433,12 @@ def judge(c2m, engines, cases, tag, stats, extra_engines=()):
                 whole = [n for n in ["gcc"] + eng_names if res[n][0] != "ok"]
                 if whole:
                     stats.cnt["batches_rerun"] += 1
+                    if any(res[n][0] == "timeout" for n in whole) and (len(items), items[0][0]) not in retried:
+                        # a loaded machine, not an endless loop?  once more with four times the limit before anything is concluded
+                        retried.add((len(items), items[0][0]))
+                        stats.cnt["batches_retried_with_long_time_limit"] += 1
+                        nxt.append(items)
+                        continue
                     ids = {i for i, _ in items}
                     named = set()
                     for n in whole:
@@ -430,13 +461,17 @@ def judge(c2m, engines, cases, tag, stats, extra_engines=()):
                         nxt.append([(i, dict(c, _nosa=True) if i in named else c) for i, c in items])
                     elif culprit is not None:
                         stats.cnt["runtime_failures_isolated"] += 1
-                        if stats.cnt["runtime_failures_isolated"] > MAX_ISOLATE:
-                            # the compiler under test hangs or crashes over and over: report what is isolated, count the rest
-                            stats.cnt["cases_not_examined_after_repeated_runtime_failures"] += len(items) - 1
-                            nxt.append([culprit])
-                        else:
-                            nxt.append([culprit])
-                            nxt.append([x for x in items if x[0] != culprit[0]])
+                        pos = [i for i, _ in items].index(culprit[0])
+                        # everything before the culprit was printed completely by every compiler: settle it from this run
+                        settle(items[:pos], {n: ("ok", r[1], r[2]) for n, r in res.items()}, confirm, suspects)
+                        nxt.append([culprit])
+                        timed_out = any(res[n][0] == "timeout" for n in whole)
+                        stats.cnt["timeouts_isolated"] += 1 if timed_out else 0
+                        if timed_out and stats.cnt["timeouts_isolated"] > MAX_ISOLATE:
+                            # the compiler under test hangs over and over: report what is isolated, count the rest
+                            stats.cnt["cases_not_examined_after_repeated_runtime_failures"] += len(items) - pos - 1
+                        elif items[pos + 1:]:
+                            nxt.append(items[pos + 1:])
                     elif len(items) > 1:
                         h = len(items) // 2
                         nxt += [items[:h], items[h:]]
@@ -444,21 +479,7 @@ def judge(c2m, engines, cases, tag, stats, extra_engines=()):
                         i, c = items[0]
                         verdict(i, c, res)
                     continue
-                for i, c in items:
-                    e = expected(c)
-                    bad = bool(sa_fail.get(i))
-                    for ctx, ef in e.items():
-                        for n in ["gcc"] + eng_names:
-                            if res[n][1].get(i, {}).get(ctx) != ef:
-                                bad = True
-                    if not bad:
-                        stats.cnt["pass"] += 1
-                        if confirm:
-                            stats.cnt["pass_on_rerun"] += 1
-                    elif confirm:
-                        verdict(i, c, res)
-                    else:
-                        suspects.append((i, c))
+                settle(items, res, confirm, suspects)
             batches = nxt
         return suspects, nrun
 
@@ -733,6 +754,9 @@ def run(tier, jobs=None, mutate=None, extra_engines=(), engines=None):
         "an operand that is not evaluated (right of && ||, unselected arm of ?:) may be undefined if evaluated; such trees are kept and "
         "also used as constant expressions (gcc accepts them)",
         "gcc 12 -std=c11 is a conforming second oracle; a case where it disagrees with the spec is never a violation"]
+    if stats.cnt["cases_not_examined_after_repeated_runtime_failures"]:
+        vlib.log("WARNING: %d cases were not examined: their batches kept timing out after %d culprits had been isolated" % (
+            stats.cnt["cases_not_examined_after_repeated_runtime_failures"], MAX_ISOLATE))
     vlib.log("C07 %s: %d cases (%s), dropped %s, spec-disagrees %d, known-finding cases %d, TLC %.0fs" % (
         tier, total, ", ".join("%s=%d" % (k, v) for k, v in sorted(bydepth.items())),
         {k[8:]: v for k, v in stats.cnt.items() if k.startswith("dropped_")}, stats.cnt["spec_disagrees"], sum(known.values()), t_tlc))
